@@ -1,7 +1,7 @@
 """Writes MANIFEST.json from the table below (kept in one place so it stays valid)."""
 import json, os
 V = os.path.dirname(os.path.dirname(os.path.abspath(__file__)))
-HOOK_COMMITS = []
+HOOK_COMMITS = ["c828291"]
 CHECKS = {
  "C01": dict(
     technique="Coq proof (std++ gmap algebra: commutative-monoid fold, induction over permutations and combination trees) + vm_compute correspondence with merge_results",
@@ -28,6 +28,21 @@ CHECKS = {
     text="Partial: proved for all tool behaviours - one merge call whose stdin is exactly the discovered profile occurrences (no duplicates introduced, order-free); each selected binary exported once per merged profile; failing or unparsable exports dropped without affecting the others; the report is the C01 aggregation of the exported data in any order; the GCC worker's report is the aggregation of what gcov wrote, for every split over workers and lock order and both latch regimes. Equality with the toolchain's own account (gcov's per-line counts and function flags) is validated differentially against gcov 12, for thread counts 1/2/4; the tools themselves are not modelled.",
     note="Trusted: Coq kernel, vm_compute, gcc/gcov 12, the driver's gcov/lcov readers, the stub tools. The ignore walker, infer::is_app and the file system enter as data. The SingleFile latch branch is proved but unreachable with gcov 12. Two known findings (duplicate JSON line entries; walker standard filters). No axioms.",
     ref="6/C20"),
+ "C03": dict(
+    technique="Coq proof (generic line-array lemma, fold over branch quadruples, gmap/list_to_map reasoning, Permutation of the covdir tree's files) + vm_compute correspondence of the Gallina encoders with the real output_* functions + independent Python readers of all 10 output types",
+    text="Partial proof at the abstract-document level. coveralls(+) lines (all counts to 2^64-1), branches and functions; covdir arrays and tree file set; Cobertura class lines and conditions; HTML file rows; Markdown counts; files. Each is a theorem decode(encode) = data for all records, with the guards the known findings force made explicit (count < 2^63 for covdir/HTML, branch lines having a count for Cobertura) and _refuted witnesses. lcov bytes (proved separately under C05), ActiveData-ETL, Cobertura methods, Markdown ranges, HTML indexes and all JSON/XML/HTML serialisation are validated on every run by decoding the real reports of generated result sets with independent readers and comparing with the input and with the model.",
+    note="Trusted: Coq kernel, vm_compute, serde_json/quick-xml/Tera/tabled, std::path splitting (driver), harness, Python readers (self-tested by seeded corruptions). Domain: lines 1..200 generated (theorems: any line >= 1 < 2^32-1), distinct plain paths, printable names, non-empty branch vectors, HTML sources present. Known findings: i64 cast, Cobertura branch-only lines, HTML root index overwritten, HTML omits absolute paths. No axioms.",
+    ref="6/C03"),
+ "C13": dict(
+    technique="Coq proof (tree induction for directory sums, fold projections, QArith for rates: Qfloor-based rounding lemmas) + vm_compute correspondence of the Gallina statistics with the real reports + independent Python readers",
+    text="Proof for all integer consistency: lcov LF/LH/BRF/BRH/FNF/FNH; covdir file stats; directory = sum of all files below up to the root; covered <= total; covered + missed = total; Cobertura and HTML sums; badge/coverage.json from the same totals. Proof for the zero-total decision of every format. Rates modelled as exact rationals plus the format's rounding: in range, within half a unit of the printed precision, finite - refuted for ActiveData (known finding; the Markdown half was repaired). Partial: IEEE rounding is not modelled; printed decimals are compared with the exact rational on the real outputs (10^-p).",
+    note="Trusted: as C03. Known findings: ActiveData null rate at total 0, i64 cast, HTML root index overwritten. No axioms.",
+    ref="6/C13"),
+ "C18": dict(
+    technique="Coq proof (byte-level induction: strict standard decoders invert the three escapers; scanner/tokenizer non-interference for documents with holes) + vm_compute correspondence with quick-xml escape, serde_json and tera escape_html + parser-based oracle on real Cobertura/Coveralls/covdir/ActiveData/HTML reports against a benign report of the same shape + template-hole extraction from src/templates",
+    text="Proof about the escaping discipline, for all byte strings: decode(escape s)=s for XML, JSON and HTML with strict decoders written from the standards; escaped text contains no raw < > quote (markup) / control byte (JSON), every & starts a produced reference; the end-of-hole scanner returns exactly the escaped name; a report modelled as fixed text with well-placed holes has a token skeleton independent of the names (XML, HTML, JSON), and a quick-xml start tag's skeleton is its tag and attribute names; every unescaped template hole carries only constants/options/numbers except parent.0|safe of the pinned template (refuted with a byte-level witness, proved for the repaired template; repaired in /repo by a fix: commit). Partial: the escapers are library code, modelled and compared byte for byte on generated strings each run; which holes Tera escapes and the writers' framing are validated on real reports (expat/json/html.parser, exact names, equality with the benign report modulo renaming), not modelled.",
+    note="Trusted: Coq kernel, vm_compute, Tera template expansion, quick-xml Writer / serde_json framing (checked by parsers on every report), Python expat/json/html.parser, harness. Domain: printable Unicode, path components valid on the file system; --abs-link-prefix/BULMA_VERSION/config trusted; exact function names compared with demangling off. No axioms.",
+    ref="6/C18"),
  "C16": dict(
     technique="Coq proof (induction over the source lines: loop flag recurrence = declarative start..stop region) + vm_compute correspondence with FileFilter::create and the filter application",
     text="Full proof for the decision logic: for every sequence of source lines (each abstracted to the six regex verdicts), every coverage record and every line index inside the file, the line count is removed iff the line matches the line marker or lies in a start(inclusive)..stop(exclusive) region, independently the same for branches; numbers outside the file and all functions are untouched; no option or unreadable source = identity. Tied to the code by running FileFilter::create on generated sources (all marker placements, option subsets, LF/CRLF) and comparing filters and resulting records with the model and with an independent reading of the property.",
